@@ -6,7 +6,7 @@
          the branch taken in the first executed sub-iteration (or when the penalty curvature must be recomputed), the stored
          one otherwise; the stored one is written from the thresholded image
  c  RF11 update shape: numerator = sub-gradient * num_subsets / D * relaxation, with
-         relaxation = relaxation_parameter / (1 + relaxation_gamma * (subiteration_num / num_subsets)); then image += it
+         relaxation = relaxation_parameter / (1 + relaxation_gamma * ((subiteration_num - 1) / num_subsets)); then image += it
 """
 import re
 
@@ -21,7 +21,12 @@ SRC = "src/iterative/OSSPS/OSSPSReconstruction.cxx"
 
 
 def requests():
-    return [Request(SRC, fn=["stir::OSSPSReconstruction::update_estimate"]), Request(SRC, fn=["stir::OSSPSReconstruction::precompute_denominator_of_conditioner_without_penalty", "stir::OSSPSReconstruction::set_up"])]
+    return [
+        Request(SRC, fn=["stir::OSSPSReconstruction::update_estimate"]),
+        Request(SRC, fn=["stir::OSSPSReconstruction::precompute_denominator_of_conditioner_without_penalty", "stir::OSSPSReconstruction::set_up"]),
+        Request("src/recon_buildblock/QuadraticPrior.cxx", fn=["stir::QuadraticPrior::parabolic_surrogate_curvature.*"], files=["/repo/src/recon_buildblock/QuadraticPrior.cxx", "/repo/src/include/stir/recon_buildblock/QuadraticPrior.h"]),
+        Request("src/recon_buildblock/LogcoshPrior.cxx", fn=["stir::LogcoshPrior::parabolic_surrogate_curvature.*"], files=["/repo/src/recon_buildblock/LogcoshPrior.cxx", "/repo/src/include/stir/recon_buildblock/LogcoshPrior.h"]),
+    ]
 
 
 def run(ctx):
@@ -104,7 +109,10 @@ def run(ctx):
     NUM = key(sub[0].call_args()[0]) if len(sub) == 1 else None
     numtr = [c for c in tr if NUM is not None and obj(c.call_args()[0]) == NUM and obj(c.call_args()[-2]) == NUM]
     Nn, al, ga, it = (alg.sym(x) for x in ("this.num_subsets", "this.relaxation_parameter", "this.relaxation_gamma", "this.subiteration_num"))
-    relax = al / (1 + ga * sympy.Function("intdiv")(it, Nn))  # n = subiteration_num / num_subsets is an INTEGER quotient
+    # n = (subiteration_num - 1) / num_subsets is the 0-based FULL iteration number of the 1-based sub-iteration number: an INTEGER
+    # quotient, the same for all sub-iterations of one full iteration.  (Until defect F36 was repaired this clause expected
+    # subiteration_num / num_subsets, i.e. it had the off-by-one of the code written into it.)
+    relax = al / (1 + ga * sympy.Function("intdiv")(it - 1, Nn))
     kinds = []
     relax_seen = None
     for c in numtr:
@@ -122,7 +130,7 @@ def run(ctx):
             kinds.append((c, "other:%s" % e))
     ok = relax_seen is not None and sympy.simplify(relax_seen - relax) == 0
     # n = subiteration_num / num_subsets is the full-iteration number: an integer division (the algebra above is over the reals)
-    itdiv = [m for m in f.walk() if m.k == "BinaryOperator" and m.op == "/" and key(m.c[0].strip(), False, inl) == "this.subiteration_num" and key(m.c[1].strip(), False, inl) == "this.num_subsets"]
+    itdiv = [m for m in f.walk() if m.k == "BinaryOperator" and m.op == "/" and key(m.c[0].strip(), False, inl) in ("(- this.subiteration_num 1)", "(+ this.subiteration_num -1)") and key(m.c[1].strip(), False, inl) == "this.num_subsets"]
     if ok and not (itdiv and all(m.type == "int" for m in itdiv)):
         ok = False
         relax_seen = "%s with a non-integer iteration number" % relax_seen
@@ -217,3 +225,81 @@ def run(ctx):
         ok2 = not between
     ctx.ob("C08.d-denominator-definition", h.qn, "accumulator-starts-empty", ok2, h.where(), "the stored denominator is a fresh empty copy of the target when the Hessian term is accumulated into it" if ok2 else "the Hessian term is not accumulated into a fresh empty image")
     ctx.require_count("C08.d-denominator-definition", 3)
+    # ---- e  update_estimate() modifies the stored denominator in place (adds the prior's share at the start of a run, thresholds it), and
+    #         its documentation says set_up() has to be called before a new run for that reason.  Hence every successful path of set_up()
+    #         gives the member a new value (fresh copy + precomputation, fresh copy filled with 1, or read from file) - a path that keeps
+    #         the object of the previous run makes a resumed or repeated run start from a denominator that already contains the prior.
+    rets = [m for m in h.walk() if m.k == "ReturnStmt" and "Succeeded::yes" in key(m)]
+    if not rets:
+        ctx.unrec(h.qn, "no `return Succeeded::yes` found in set_up")
+    else:
+
+        def writes_stored(x):
+            if x.k == "CXXMemberCallExpr" and (x.callee or "").endswith("::reset") and x.c and key(x.c[0].strip()) == "this.precomputed_denominator_ptr" and x.call_args():
+                return True
+            if x.k in ("BinaryOperator", "CXXOperatorCallExpr") and x.op == "=" and len(x.c) >= 2 and key(x.c[-2].strip()) == "this.precomputed_denominator_ptr":
+                return True
+            return False
+
+        w = hcfg.must_pass_from_entry([r for r in rets if r.i in hcfg.pos], writes_stored)
+        ok3 = w is None and all(r.i in hcfg.pos for r in rets)
+        ctx.ob("C08.e-set-up-renews-denominator", h.qn, "every-successful-path", ok3, h.where(), "every successful path of set_up() gives precomputed_denominator_ptr a new value (the previous run modified the old one in place)" if ok3 else "a successful path of set_up() keeps the stored denominator of the previous run, which update_estimate() has modified in place (prior share added, thresholded): a resumed or repeated run no longer starts from -(approximate Hessian x ones)")
+    ctx.require_count("C08.e-set-up-renews-denominator", 1)
+    # ---- f  OSSPS adds the prior's surrogate curvature to D once per run unless the prior says that the curvature depends on the image
+    #         (parabolic_surrogate_curvature_depends_on_argument()).  A prior that answers `false` must be right: in its
+    #         parabolic_surrogate_curvature(out, image) no ELEMENT of `image` may be read - only its index ranges / geometry.
+    for r in reqs[2:4]:
+        u = ctx.ex.get(r)
+        if u is None:
+            continue
+        flag = [g for g in u.functions if g.short == "parabolic_surrogate_curvature_depends_on_argument" and g.body is not None]
+        curvf = [g for g in u.functions if g.short == "parabolic_surrogate_curvature" and g.body is not None and len(g.params) == 2]
+        if not flag or not curvf:
+            ctx.unrec(r.source, "parabolic_surrogate_curvature / ..._depends_on_argument not found")
+            continue
+        rv = [m for m in flag[0].walk() if m.k == "ReturnStmt" and m.c]
+        says = {key(m.c[0].strip()) for m in rv}
+        g = curvf[0]
+        img = "v%d" % g.params[1]["d"]
+        reads = []
+        for m in g.walk():
+            # an element read: a subscript chain rooted in the image parameter (or a reference/cast of it)
+            if (m.k == "CXXOperatorCallExpr" and m.op == "[]") or m.k == "ArraySubscriptExpr":
+                root = m
+                depth = 0
+                while (root.k == "CXXOperatorCallExpr" and root.op == "[]" and root.c) or root.k == "ArraySubscriptExpr":
+                    root = root.c[0].strip()
+                    depth += 1
+                if root.k == "DeclRefExpr" and key(root) == img and depth >= 3 and not ((m.parent.k == "CXXOperatorCallExpr" and m.parent.op == "[]") or m.parent.k == "CXXMemberCallExpr" and m.parent.c and m.parent.c[0] is m):
+                    reads.append(m)
+        depends = bool(reads)
+        if says == {"false"}:
+            ok = not depends
+            det = "answers `false`, and parabolic_surrogate_curvature reads no element of the image (index ranges only)" if ok else "answers `false`, but parabolic_surrogate_curvature reads elements of the image (%s:%d): OSSPS keeps the penalty part of its denominator from the first sub-iteration of the run instead of recomputing it for the current image" % (g.file, reads[0].line)
+        elif says == {"true"}:
+            ok, det = True, "answers `true`: OSSPS recomputes the penalty part of the denominator at every sub-iteration (always correct)"
+        else:
+            ctx.unrec(flag[0].qn, "return value not a literal: %s" % sorted(says))
+            continue
+        ctx.ob("C08.f-curvature-dependence-flag", flag[0].qn, "flag-agrees-with-code", ok, flag[0].where(), det)
+    ctx.require_count("C08.f-curvature-dependence-flag", 2)
+    # ---- g  restartability of the iterate: nothing that modifies the CURRENT IMAGE in update_estimate is conditional on where the run
+    #         started (start_subiteration_num) - a resumed run would do it again at a point where the uninterrupted run does not.
+    #         (Run-local state that set_up() renews - the stored denominator, clause e - may be initialised at the first sub-iteration.)
+    imgp = "v%d" % f.params[0]["d"] if f.params else None
+    n_g = 0
+    for m in f.walk():
+        if not m.is_call() and m.k not in ("CompoundAssignOperator",):
+            continue
+        wl = written_lvalues(m)
+        a0 = [key(a.strip()) for a in m.call_args()] if m.is_call() else []
+        touches = any(root_of_lvalue(e2).lstrip("*") == imgp for e2 in wl) or (m.is_call() and imgp in a0 and (m.callee or "").split("::")[-1] in ("fill_nonidentifiable_target_parameters", "threshold_upper_lower", "threshold_min_to_small_positive_value", "fill"))
+        if not touches:
+            continue
+        conds = [a_.c[0] for a_ in m.ancestors() if a_.k == "IfStmt" and a_.c and any(x is m for x in (a_.c[1].walk() if len(a_.c) > 1 else []))] + [a_.c[0] for a_ in m.ancestors() if a_.k == "IfStmt" and len(a_.c) > 2 and any(x is m for x in a_.c[2].walk())]
+        dep = [c for c in conds if "start_subiteration_num" in key(c)]
+        if not conds:
+            continue
+        ctx.ob("C08.g-iterate-independent-of-run-start", f.qn, "modification@%s" % (m.callee or m.k).split("::")[-1], not dep, m.where(), "modifies the current image under a condition that does not involve the start of the run" if not dep else "the current image is modified (%s) only when `%s`: a run resumed at sub-iteration k+1 does this again at k+1 where the uninterrupted run does not - with a prior the two runs differ in the voxels concerned" % ((m.callee or m.k).split("::")[-1], key(dep[0], True)))
+        n_g += 1
+    ctx.require_count("C08.g-iterate-independent-of-run-start", 1)
